@@ -99,7 +99,7 @@ def generate(ctx: Ctx, R: Runner):
             n = rng.choice([6, 10, 16, 25, 40]) if quick else rng.choice([6, 10, 16, 25, 40, 80, 150])
             R.add(X.build_case(rng, fam, n, backend, idkind, stats=(rng.random() < 0.35)))
     if not quick:
-        for fam, n in [("cliques_bridges", 600), ("forest_small", 1000), ("random_sparse", 800), ("path_random", 300)]:
+        for fam, n in [("cliques_bridges", 300), ("forest_small", 500), ("random_sparse", 400), ("path_random", 200)]:
             R.add(X.build_case(rng, fam, n, "duckdb", "int", stats=False))
 
 
